@@ -583,6 +583,9 @@ pub struct Import {
     pub layer: Option<Option<String>>,
     pub supports: Option<(String, Vec<VTok>)>,
     pub media: Option<MediaCond>,
+    /// `supports(selector(..))` (instead of the declaration form)
+    #[serde(default)]
+    pub supports_sel: Option<Vec<Complex>>,
 }
 
 #[derive(Clone, Debug, PartialEq, Serialize, Deserialize)]
@@ -603,7 +606,7 @@ pub enum Node {
     /// expectation only: `[name="value"],[name2="value2"] { decls }` (the converted form of a `:host` rule)
     AttrRule { attrs: Vec<(String, String)>, decls: Vec<Decl> },
     /// expectation only: what an `@import` becomes when an import sign is configured
-    ImportPlaceholder { layer: Option<Option<String>>, supports: Option<(String, Vec<VTok>)>, media: Option<MediaCond>, comment_path: String },
+    ImportPlaceholder { layer: Option<Option<String>>, supports: Option<(String, Vec<VTok>)>, media: Option<MediaCond>, comment_path: String, #[serde(default)] supports_sel: Option<Vec<Complex>> },
 }
 
 #[derive(Clone, Debug, PartialEq, Serialize, Deserialize)]
@@ -886,6 +889,16 @@ impl Node {
                     e.slot(Slot::Opt);
                     e.close(Bracket::Func("supports".into()));
                 }
+                if let Some(sel) = &im.supports_sel {
+                    e.slot(Slot::Sep);
+                    e.open(Bracket::Func("supports".into()));
+                    e.slot(Slot::Opt);
+                    e.open(Bracket::Func("selector".into()));
+                    emit_selector_list(sel, e);
+                    e.close(Bracket::Func("selector".into()));
+                    e.slot(Slot::Opt);
+                    e.close(Bracket::Func("supports".into()));
+                }
                 if let Some(m) = &im.media {
                     e.slot(Slot::Sep);
                     m.emit(e);
@@ -924,7 +937,7 @@ impl Node {
                 emit_decls(decls, e);
                 e.close(Bracket::Curly);
             }
-            Node::ImportPlaceholder { layer, supports, media, comment_path } => {
+            Node::ImportPlaceholder { layer, supports, media, comment_path, supports_sel } => {
                 let mut closes = 0;
                 if let Some(l) = layer {
                     e.tok(TokKind::AtKeyword("layer".into()));
@@ -947,6 +960,21 @@ impl Node {
                     e.tok(TokKind::Colon);
                     e.slot(Slot::Opt);
                     emit_values(v, e);
+                    e.slot(Slot::Opt);
+                    e.close(Bracket::Paren);
+                    e.slot(Slot::Opt);
+                    e.open(Bracket::Curly);
+                    closes += 1;
+                }
+                if let Some(sel) = supports_sel {
+                    e.slot(Slot::Opt);
+                    e.tok(TokKind::AtKeyword("supports".into()));
+                    e.slot(Slot::Opt);
+                    e.open(Bracket::Paren);
+                    e.slot(Slot::Opt);
+                    e.open(Bracket::Func("selector".into()));
+                    emit_selector_list(sel, e);
+                    e.close(Bracket::Func("selector".into()));
                     e.slot(Slot::Opt);
                     e.close(Bracket::Paren);
                     e.slot(Slot::Opt);
